@@ -1,4 +1,7 @@
-"""C07 generator: modular add/sub/neg/double/mul incl. special moduli p = 2^BITS - c."""
+"""C07 generator: modular add/sub/neg/double/mul incl. special moduli p = 2^BITS - c, and modular halving
+(div_by_2 kernels reached through MontyForm / BoxedMontyForm::from_montgomery(..).div_by_2(): odd moduli incl. 1, 3,
+2^BITS - 1 (a + m overflows the width: the carry must come back as the top bit), 2^(BITS-1) +- 1, zero high limbs;
+representatives 0, 1, m - 1, m - 2, (m +- 1) / 2, odd and even random)."""
 from .common import Case
 from .gen import *
 
@@ -93,4 +96,19 @@ def gen(tier, rng):
                         add(Case('boxed.mul_mod' + f, [to_limbs(a, n), to_limbs(b, n), to_limbs(po, n)], mop='boxed.mul_mod'))
             if kind == 'uint':
                 add(Case('uint.mul_mod_trait', [limbs(rng, n), limbs(rng, n), [0] * n]))
+            # modular halving
+            for i in range((24 if n <= 8 else 12) * scale):
+                M = 1 << (64 * n)
+                m = [1, 3, M - 1, M - 1, M - 3, (M >> 1) + 1, (M >> 1) - 1, M // 3 | 1][i] if i < 8 else modulus(rng, n, odd=True)
+                k = rng.random()
+                if k < 0.1: a = 0
+                elif k < 0.2: a = 1 % m
+                elif k < 0.35: a = m - 1
+                elif k < 0.45: a = (m - 2) % m
+                elif k < 0.55: a = ((m + rng.choice([-1, 1])) // 2) % m
+                else: a = value(rng, n) % m
+                if i % 2 == 0 and a % 2 == 0 and a + 1 < m: a += 1      # odd representatives take the (a + m) path
+                forms = [''] + (['.assign', '.params_ct'] if kind == 'boxed' else [])
+                for f in forms:
+                    add(Case(kind + '.div_by_2' + f, [to_limbs(a, n), to_limbs(m, n)], mop=kind + '.div_by_2', dbg=(i % 2 == 0)))
     return cs
